@@ -43,6 +43,9 @@ def analyse(prop, repo, tier='quick'):
             continue          # normalised while discovering methods, not analysed by this property
         for node, table, ktext, missing in nf.memo_issues:
             n_memo += 1
+            if table == '!one-shot':
+                ctx.ob('iterator-reuse', nf, node, False, missing[0][1:-1], construct='second walk of `%s`' % ktext)
+                continue
             if missing and isinstance(missing[0], str) and missing[0].startswith('<') and missing[0].endswith('>'):
                 ctx.ob('memo-key', nf, node, False, 'the remembered value `%s[%s]` is not the value the code would compute now: %s'
                        % (table, ktext, '; '.join(m[1:-1] for m in missing)))
